@@ -495,20 +495,24 @@ Section Model.
       | _, _ => LPanic PUnwrap
       end.
 
+  (* the walk of lit_into_ty / ident_into_ty through the layers of a target type: NewType layers (the NewType arms) and, where
+     the Arc arms exist, Arc layers.  [fa_of]: the typedef chain of the target reaches an Arc and the Arc arm takes it from
+     there; [tfin]: the type at the end of the walk *)
+  Definition fa_of (ty : cty) : bool := arc_ok && is_arc_c (peel pfuel ty).
+  Definition tfin (ty : cty) : cty := if fa_of ty then peela (pfuel + pfuel) ty else peel pfuel ty.
+  (* does the path's type occur on the walk (Rust tests `ident_ty == target` at every level)?  Some b: yes, b = below an Arc *)
+  Definition chain_of (it ty : cty) : option bool :=
+    if fa_of ty then in_chain_a (pfuel + pfuel) it ty else if in_chain pfuel it ty then Some false else None.
+
   (* ident_into_ty: [v] is the value the path denotes.  Rust tests `ident_ty == target`, then the NewType arm recurses at
-     the aliased type (wrapping the result in the newtype: same value, same flag); so: the path itself as soon as some
-     level of the target's typedef chain IS the path's type, else the conversion arms at the end of the chain. *)
-  Definition ident_into_ty0 (ident_ty target : cty) (v : lres gval) : lres (gval * bool) :=
-    if in_chain pfuel ident_ty target then (let+ x := v in LOk (x, true))
-    else ident_conv (peel pfuel target) false ident_ty v.
-  (* with the Arc arm: the same walk through NewType and Arc layers; whatever was found below an Arc is not const *)
+     the aliased type (wrapping the result in the newtype: same value, same flag) and the Arc arm at the wrapped type
+     (Arc::new(..): same value, never const); so: the path itself as soon as some level of the walk IS the path's type,
+     else the conversion arms at the end of the walk. *)
   Definition ident_into_ty (ident_ty target : cty) (v : lres gval) : lres (gval * bool) :=
-    if arc_ok && is_arc_c (peel pfuel target) then
-      match in_chain_a (pfuel + pfuel) ident_ty target with
-      | Some b => let+ x := v in LOk (x, negb b)
-      | None => ident_conv (peela (pfuel + pfuel) target) true ident_ty v
-      end
-    else ident_into_ty0 ident_ty target v.
+    match chain_of ident_ty target with
+    | Some b => let+ x := v in LOk (x, negb b)
+    | None => ident_conv (tfin target) (fa_of target) ident_ty v
+    end.
 
   Section Lit.
     Variable cval : nat -> lres gval.        (* the value const item c denotes (def_lit) *)
@@ -529,8 +533,8 @@ Section Model.
        by lit_as_rvalue's arms unless we entered through lit_into_ty at a type that is no newtype ([en]), then by
        lit_into_ty's.  Arms are selected from the REGENERATED lists by the kinds of literal and type, as Rust's match
        does (first arm that matches); the bodies re-inspect literal and type, and a shape the selected arm cannot have
-       is answered like the fall-through.  Members of container / struct literals: lit_as_rvalue; map keys and the
-       elements of a const Array: lit_into_ty. *)
+       is answered like the fall-through.  Members of container / struct literals: lit_as_rvalue; the elements of a
+       const Array: lit_into_ty; map keys: lit_into_ty, or lit_as_rvalue where mk_map was repaired ([map_key_rvalue]). *)
     Fixpoint lower (top : bool) (l : lit) (ty : cty) {struct l} : lres (gval * bool) :=
       match l with
       | LMember e m =>
@@ -553,9 +557,9 @@ Section Model.
           end
       | _ =>
           (* [fa]: the typedef chain of ty passes through the Arc arm (lit_as_rvalue at the wrapped type; never const) *)
-          let fa := arc_ok && is_arc_c (peel pfuel ty) in
+          let fa := fa_of ty in
           let en := if fa then true else top || is_nt ty in
-          let ty' := if fa then peela (pfuel + pfuel) ty else peel pfuel ty in
+          let ty' := tfin ty in
           match ckind ty' with
           | None => LPanic PUnwrap
           | Some ck =>
@@ -570,7 +574,7 @@ Section Model.
                            match m with
                            | [] => LOk []
                            | (k, v) :: r =>
-                               let+ a := lower false k kt in let+ b := lower true v vt in let+ t := go r in
+                               let+ a := lower map_key_rvalue k kt in let+ b := lower true v vt in let+ t := go r in
                                LOk ((fst a, fst b) :: t)
                            end) m in
                       LOk (GMap kvs, rfl)
@@ -585,7 +589,7 @@ Section Model.
                            match m with
                            | [] => LOk []
                            | (k, v) :: r =>
-                               let+ a := lower false k kt in let+ b := lower true v vt in let+ t := go r in
+                               let+ a := lower map_key_rvalue k kt in let+ b := lower true v vt in let+ t := go r in
                                LOk ((fst a, fst b) :: t)
                            end) m in
                       LOk (GMap kvs, rfl)
@@ -658,7 +662,7 @@ Section Model.
                            match m with
                            | [] => LOk []
                            | (k, v) :: r =>
-                               let+ a := lower false k kt in let+ b := lower true v vt in let+ t := go r in
+                               let+ a := lower map_key_rvalue k kt in let+ b := lower true v vt in let+ t := go r in
                                LOk ((fst a, fst b) :: t)
                            end) m in
                       LOk (GMap kvs, fl false)
@@ -758,7 +762,13 @@ Section Model.
                       end
                   | _, _ => LPanic PUnexpectedLiteral
                   end
-              | _ => LPanic PUnexpectedLiteral              (* 0 (Path) is handled above; 25 = the fall-through *)
+              | 25%nat =>                                   (* (String, Vec(U8)) where that arm exists: `"..".as_bytes().to_vec()` *)
+                  match l, ty' with
+                  | LString s, CVec CU8 =>
+                      if string_at_bytesvec_ok then (let+ v := string_value s in LOk (v, fl false)) else LPanic PUnexpectedLiteral
+                  | _, _ => LPanic PUnexpectedLiteral       (* the guard fails, or 25 is the Arc arm's index / the fall-through *)
+                  end
+              | _ => LPanic PUnexpectedLiteral              (* 0 (Path) is handled above; the fall-through *)
               end
               end
           end
